@@ -195,6 +195,8 @@ func vmCorpus() []vmProg {
 		{"stoplast", "counter a\ncounter b\n/K1=(\\d+)/ {\n  a++\n} else {\n  b++\n  stop\n}\n", true, ""},
 		{"errlast", "counter a\ngauge g\n/K1=(\\d+)/ {\n  a++\n} else {\n  /K2=(\\S+)/ {\n    g = int($1)\n  }\n}\n", true, ""},
 		{"toplevel", "counter a\ncounter d\n/K1=(\\d+)/ {\n  a++\n}\nd++\nstop\n", true, ""},
+		{"powcaps", "gauge g\n/K1=(-?\\d+) K2=(-?\\d+)/ {\n  g = $1 ** $2\n}\n", true, ""},
+		{"floataddint", "gauge f\n/K1=(\\d+\\.\\d+) K2=(\\d+)/ {\n  f = $1\n  f += $2\n}\n", true, ""},
 		{"capother", "counter c by k\n/K1=(\\w+)/ {\n  c[$1]++\n} else {\n  c[$1]++\n}\n", true, ""},
 	}
 }
